@@ -55,6 +55,10 @@ def main():
                           replay={"kind": "see-position", "fen": det.get("fen"), "events": ev})
     if by.get("gen", 0) == 0 or by.get("rank", 0) == 0 or by.get("walk", 0) == 0 or tot["losing"] == 0:
         raise vlib.ToolError("vacuous SEE run: %s %s" % (tot, by))
+    # the verdict is a function of the position: walks (castling, promotions, take-backs on one game) compare the verdicts of
+    # the live game with those of the same position set up afresh, every event (Trace_Game clause filed under C20)
+    wres, wpaths = games.walk_traces(chk, events=500 if q else 10000, files=4 if q else 16, label="walk")
+    games.collect_walk(chk, wres, wpaths)
     chk.cov.update({
         "states": tot["positions"], "transitions": tot["captures"], "traces_validated_against_impl": len(jobs),
         "evaluations": tot["captures"], "distinct_nontrivial": tot["losing"],
